@@ -123,7 +123,9 @@ func (s *Script) discovery() bool {
 }
 
 func (s *Script) noteSlow(d time.Duration) {
-	if s.SlowLimit > 0 && d > s.SlowLimit {
+	// an un-faulted answer that took a sizeable part of the client timeout: the timeout may
+	// have fired (or nearly) for a reason that is not in the script
+	if d > ClientTimeout/3 {
 		s.mu.Lock()
 		s.slow = true
 		s.mu.Unlock()
@@ -228,9 +230,7 @@ func (s *Script) Handler(addr int, alive bool, discovery string, up Upstream) ht
 		}
 		t0 := time.Now()
 		st, body, err := up(r)
-		if f.K == "ok" {
-			s.noteSlow(time.Since(t0))
-		}
+		s.noteSlow(time.Since(t0))
 		if err != nil {
 			hijackClose(w, false)
 			return
@@ -404,6 +404,7 @@ func (f *faultStream) prepare() {
 	select {
 	case <-f.reqReady:
 	case <-time.After(5 * time.Second):
+		f.s.noteSlow(time.Hour) // not a fault of the script: the history's timing is not to be trusted
 		f.tailErr = fmt.Errorf("faultdrv: request never written")
 		f.out = bytes.NewReader(nil)
 		return
